@@ -1,6 +1,7 @@
 package main
 
 import (
+	"go/constant"
 	"fmt"
 	"go/types"
 	"strings"
@@ -327,10 +328,40 @@ func runC15(r *Report) {
 		n := len(Calls(hb, false, "SetRuntime")) + len(Calls(hb, false, "Set"))
 		r.Ob("R-C15-4", hb.Pos(), n >= 1, "the claim is renewed periodically", "heartbeatLoop", "renews")
 	}
-	cat := hybridCategory(r, "tunnox:node:allocated:node-0001")
-	r.Ob("R-C15-4", 0, cat == "shared", "node-id lock keys classify as "+cat+" (release through Delete must reach the tier the claim lives in)", hybPkg, "node-key-shared")
-	cat2 := hybridCategory(r, "tunnox:id:used:client:123")
-	r.Ob("R-C15-4", 0, cat2 == "shared", "id marker keys classify as "+cat2+" (markers must be visible to every node)", hybPkg, "id-key-shared")
+	// the key families are read from the source on every run: the node-id lock prefix constant and the
+	// marker prefixes NewIDManager hands to its storage-backed generators (evaluated through helpers)
+	nodePrefix := ""
+	if npk := r.P.ByPath[Module+"/"+nodePkg]; npk != nil {
+		if c, _ := npk.Types.Scope().Lookup("NodeIDKeyPrefix").(*types.Const); c != nil && c.Val().Kind() == constant.String {
+			nodePrefix = constant.StringVal(c.Val())
+		}
+	}
+	if nodePrefix == "" {
+		r.Fail("R-C15-4", 0, "node-id lock key prefix (NodeIDKeyPrefix) not found", nodePkg, "node-key-shared")
+	} else {
+		cat := hybridCategory(r, nodePrefix+"node-0001")
+		r.Ob("R-C15-4", 0, cat == "shared", "node-id lock keys ("+nodePrefix+"*) classify as "+cat+" (release through Delete must reach the tier the claim lives in)", hybPkg, "node-key-shared")
+	}
+	nMarker := 0
+	if nim := r.need("R-C15-4", idgPkg, "NewIDManager"); nim != nil {
+		Instrs(nim, func(in ssa.Instruction) {
+			ci, ok := in.(ssa.CallInstruction)
+			if !ok || !strings.HasPrefix(CalleeOf(ci).Name, "NewStorageIDGenerator") || len(ci.Common().Args) < 3 {
+				return
+			}
+			nMarker++
+			pfx, okE := evalString(ci.Common().Args[2], nil, 0)
+			if !okE {
+				r.Fail("R-C15-4", CallPos(ci), "undecided: the marker key prefix of this generator cannot be evaluated from the source ("+originSummary(ci.Common().Args[2])+")", "NewIDManager", "id-key-shared")
+				return
+			}
+			cat2 := hybridCategory(r, pfx+":123")
+			r.Ob("R-C15-4", CallPos(ci), cat2 == "shared", "id marker keys ("+pfx+":*) classify as "+cat2+" (markers must be visible to every node)", "NewIDManager", "id-key-shared:"+pfx)
+		})
+	}
+	if nMarker < 3 {
+		r.Fail("R-C15-4", 0, fmt.Sprintf("only %d storage-backed id generators found in NewIDManager (4 confirmed by hand)", nMarker), idgPkg, "id-key-shared:floor")
+	}
 
 	// ---- R-C15-5 counters --------------------------------------------------------------------
 	if hi := r.need("R-C15-5", hybPkg, "Storage.IncrBy"); hi != nil {
